@@ -170,7 +170,7 @@ Definition identify (c : cfg) (r : req) (st : state) : state * idres :=
           if negb (reissued st) && cmp_eval reissue_cmp (now2 r - 2 * ts)%Z (2 * rt)%Z then
             let tokens' := filter nonempty tokens in
             let was_revoked := revoked st in
-            match remember c r u (max_age c) tokens' with
+            match remember c (later r) u (max_age c) tokens' with     (* the ticket is stamped by a later clock reading *)
             | None => (st, IRaise)
             | Some hs =>
                 (* remember() set the revoked flag; it is deleted again unless it was there before *)
@@ -241,7 +241,7 @@ Definition spec_reissue_ticket (c : cfg) (r : req) : option (list ck) :=
   match identify_pre c r, reissue_time c with
   | ISome ts u tokens _, Some rt =>
       if Z.ltb (2 * rt) (now2 r - 2 * ts)        (* "older than the reissue time": the property's wording, not the code's operator *)
-      then remember c r u (max_age c) (filter nonempty tokens) else None
+      then remember c (later r) u (max_age c) (filter nonempty tokens) else None
   | _, _ => None
   end.
 
@@ -289,7 +289,7 @@ Definition msgs_op (c : cfg) (r : req) (o : op) : list (list N) :=
   | OIdentify =>
       msgs_identify c r ++
       match identify_pre c r with
-      | ISome _ u tokens _ => msg_remember c r u (filter nonempty tokens)
+      | ISome _ u tokens _ => msg_remember c (later r) u (filter nonempty tokens)
       | _ => []
       end
   | ORemember u _ toks => msg_remember c r u toks
@@ -314,6 +314,27 @@ Fixpoint gen_run_ops (H : text -> list N -> text) (dsz : text -> nat) (uni : N -
   | [] => (st, [])
   | o :: rest => let '(st1, x) := gen_step H dsz uni c r st o in
                  let '(st2, xs) := gen_run_ops H dsz uni c r st1 rest in (st2, x :: xs)
+  end.
+
+(* ================================================================== two helpers consulted for ONE request *)
+(* (auth_tkt + a second ticket cookie, a secret-rotation pair, a multi-policy stack): the request flags and the
+   response callbacks are shared, each helper reads its own cookie.  [true] addresses the second helper. *)
+Fixpoint run_ops2 (H : text -> list N -> text) (dsz : text -> nat) (uni : N -> N)
+         (c0 : cfg) (r0 : req) (c1 : cfg) (r1 : req) (st : state) (ops : list (bool * op)) : state * list out :=
+  match ops with
+  | [] => (st, [])
+  | (b, o) :: rest =>
+      let '(st1, x) := if b then step H dsz uni c1 r1 st o else step H dsz uni c0 r0 st o in
+      let '(st2, xs) := run_ops2 H dsz uni c0 r0 c1 r1 st1 rest in (st2, x :: xs)
+  end.
+
+Fixpoint gen_run_ops2 (H : text -> list N -> text) (dsz : text -> nat) (uni : N -> N)
+         (c0 : cfg) (r0 : req) (c1 : cfg) (r1 : req) (st : state) (ops : list (bool * op)) : state * list out :=
+  match ops with
+  | [] => (st, [])
+  | (b, o) :: rest =>
+      let '(st1, x) := if b then gen_step H dsz uni c1 r1 st o else gen_step H dsz uni c0 r0 st o in
+      let '(st2, xs) := gen_run_ops2 H dsz uni c0 r0 c1 r1 st1 rest in (st2, x :: xs)
   end.
 
 (* ================================================================== wire glue *)
@@ -345,10 +366,10 @@ Definition get_cfg (v : val) : option cfg :=
 
 Definition get_req (v : val) : option req :=
   match v with
-  | VL [ck0; ip; dm; nw; hf] =>
+  | VL [ck0; ip; dm; nw; hf; tk] =>
       olet ck0 := get_optT ck0 in olet ip := get_text ip in olet ip := classify_ip ip in
-      olet dm := get_text dm in olet nw := get_Z nw in olet hf := get_bool hf in
-      Some (mkReq ck0 ip dm nw hf)
+      olet dm := get_text dm in olet nw := get_Z nw in olet hf := get_bool hf in olet tk := get_bool tk in
+      Some (mkReq ck0 ip dm nw hf tk)
   | _ => None
   end.
 
@@ -360,13 +381,19 @@ Definition get_uval (v : val) : option uval :=
   | _ => None
   end.
 
-Definition get_op (v : val) : option op :=
+(* 0 1 2: identify / remember / forget on the first helper; 3 4 5: the same on the second helper *)
+Definition get_op (v : val) : option (bool * op) :=
   match v with
-  | VL [VI 0%Z] => Some OIdentify
+  | VL [VI 0%Z] => Some (false, OIdentify)
   | VL [VI 1%Z; u; ma; toks] =>
       olet u := get_uval u in olet ma := get_optZ ma in olet toks := get_texts toks in
-      Some (ORemember u ma toks)
-  | VL [VI 2%Z] => Some OForget
+      Some (false, ORemember u ma toks)
+  | VL [VI 2%Z] => Some (false, OForget)
+  | VL [VI 3%Z] => Some (true, OIdentify)
+  | VL [VI 4%Z; u; ma; toks] =>
+      olet u := get_uval u in olet ma := get_optZ ma in olet toks := get_texts toks in
+      Some (true, ORemember u ma toks)
+  | VL [VI 5%Z] => Some (true, OForget)
   | _ => None
   end.
 
@@ -402,7 +429,9 @@ Definition out_values (o : out) : list text :=
 Definition no_reissue (c : cfg) : cfg :=
   mkCfg (secret c) (cookie_name c) (secure c) (include_ip c) (timeout c) None (max_age c) (http_only c)
         (path c) (wild_domain c) (parent_domain c) (domain c) (hashalg c) (samesite c).
-Definition with_cookie (r : req) (v : text) : req := mkReq (Some v) (remote_addr r) (cur_domain r) (now r) (half r).
+Definition with_cookie (r : req) (v : text) : req := mkReq (Some v) (remote_addr r) (cur_domain r) (now r) (half r) (tick r).
+Definition with_cookie_opt (r : req) (v : option text) : req := mkReq v (remote_addr r) (cur_domain r) (now r) (half r) (tick r).
+Definition no_tick (r : req) : req := mkReq (cookie r) (remote_addr r) (cur_domain r) (now r) (half r) false.
 
 Definition ip_eqb (a b : ipaddr) : bool :=
   match a, b with
@@ -447,20 +476,28 @@ Definition origin_cookie (Hf : text -> list N -> text) (o : origin) : option tex
 Definition run_C09 (v : val) : val :=
   ret_or_bad (
     match v with
-    | VL [c; r; ops; org; VL [dt; ht; ut]] =>
+    | VL [c; r; ops; org; VL [dt; ht; ut]; second] =>
         olet c := get_cfg c in olet r := get_req r in olet ops := get_list_of get_op ops in
+        (* second helper: [] (none: it is the first one again) or [cfg; its cookie] *)
+        olet snd_h := match second with
+                      | VL [] => Some (c, r)
+                      | VL [c1; k1] => olet c1 := get_cfg c1 in olet k1 := get_optT k1 in Some (c1, with_cookie_opt r k1)
+                      | _ => None
+                      end in
+        let c1 := fst snd_h in let r1 := snd snd_h in
         olet org := get_opt get_origin org in
         olet dt := get_list_of get_drow dt in olet ht := get_list_of get_Hrow ht in
         olet ut := get_list_of get_urow ut in
         let Hf := lookup_H ht in let dz := lookup_dsz dt in let ur := lookup_uni ut in
-        let '(st, outs) := gen_run_ops Hf dz ur c r st0 ops in
+        let '(st, outs) := gen_run_ops2 Hf dz ur c r c1 r1 st0 ops in
         let resp := response_cookies st in
         let fed := flat_map out_values outs ++ values_of resp in
-        let fb := map (fun v => snd (gen_identify Hf dz ur (no_reissue c) (with_cookie r v) st0)) fed in
+        let fb := map (fun v => snd (gen_identify Hf dz ur (no_reissue c) (with_cookie (no_tick r) v) st0)) fed in
         let oc := match org with Some o => origin_cookie Hf o | None => None end in
         (* ---- spec side *)
         let ck0 := match cookie r with Some x => x | None => [] end in
         let dok := match cookie r with Some x => digest_ok Hf dz ur c r x | None => false end in
+        let dok1 := match cookie r1 with Some x => digest_ok Hf dz ur c1 r1 x | None => false end in
         let compat := match org, eff_ip c r with
                       | Some o, Some ip => text_eqb (o_secret o) (secret c) && text_eqb (o_alg o) (hashalg c)
                                            && ip_eqb (o_ip o) ip
@@ -476,13 +513,15 @@ Definition run_C09 (v : val) : val :=
                                   else VL [VI 0]
                       | None => VL [VI 0]
                       end in
-        let spec := VL [vbool dok; expect; vlist put_ck (spec_response Hf dz ur c r ops);
+        let spec := VL [VL [vbool dok; vbool dok1]; expect; vlist put_ck (spec_response Hf dz ur c r (map snd ops));
                         VL [VT (cookie_name c); put_optT (spec_domain c r); VT (path c); vbool (secure c);
                             vbool (http_only c); put_optT (samesite c); put_optZ (max_age c)]] in
         (* ---- oracle queries of this run *)
-        let msgs := flat_map (msgs_op Hf dz ur c r) ops
-                    ++ flat_map (fun v => msgs_identify dz ur (no_reissue c) (with_cookie r v)) fed in
+        let msgs := flat_map (fun bo : bool * op => if fst bo then [] else msgs_op Hf dz ur c r (snd bo)) ops
+                    ++ flat_map (fun v => msgs_identify dz ur (no_reissue c) (with_cookie (no_tick r) v)) fed in
+        let msgs1 := flat_map (fun bo : bool * op => if fst bo then msgs_op Hf dz ur c1 r1 (snd bo) else []) ops in
         let qs := flat_map (queries_of Hf (hashalg c) (secret c)) msgs
+                  ++ flat_map (queries_of Hf (hashalg c1) (secret c1)) msgs1
                   ++ match org with
                      | Some o => match encode_userid (o_u o) with
                                  | Some (tag, enc) =>
